@@ -20,5 +20,25 @@ pub mod iospec {
             ensures
                 r is Ok ==> (*final(self)).failed() == (*old(self)).failed() && (*final(self)).complete() == (*old(self)).complete(),
                 r is Err ==> (*final(self)).failed();
+        // a single `write` may accept only a prefix of the buffer: unless the count is checked, bytes are lost
+        fn write(&mut self, buf: &[u8]) -> (r: std::io::Result<usize>)
+            ensures
+                r is Err ==> (*final(self)).failed(),
+                r is Ok ==> (*final(self)).failed() == (*old(self)).failed() && r->Ok_0 <= buf@.len(),
+                r is Ok && r->Ok_0 == buf@.len() ==> (*final(self)).complete() == (*old(self)).complete(),
+                r is Ok && r->Ok_0 < buf@.len() ==> !(*final(self)).complete();
+        fn write_all(&mut self, buf: &[u8]) -> (r: std::io::Result<()>)
+            ensures
+                r is Ok ==> (*final(self)).failed() == (*old(self)).failed() && (*final(self)).complete() == (*old(self)).complete(),
+                r is Err ==> (*final(self)).failed();
+        fn flush(&mut self) -> (r: std::io::Result<()>)
+            ensures
+                r is Ok ==> (*final(self)).failed() == (*old(self)).failed() && (*final(self)).complete() == (*old(self)).complete(),
+                r is Err ==> (*final(self)).failed();
     }
+    #[verifier::external_type_specification]
+    pub struct ExErrorKind(std::io::ErrorKind);
+    // TRUSTED: the kind of an io::Error is some ErrorKind; comparing kinds has no side effect
+    pub assume_specification [std::io::Error::kind] (e: &std::io::Error) -> (k: std::io::ErrorKind);
+    pub assume_specification [<std::io::ErrorKind as PartialEq>::eq] (a: &std::io::ErrorKind, b: &std::io::ErrorKind) -> (r: bool);
 }
